@@ -72,6 +72,10 @@ def run(ctx):
     extra.append({"src": "set f to transform return 1 / 0 end\nreplace all 'a' with f", "texts": ["a"]})
     for c in extra[-2:]:
         pass
+    # inputs that end in the middle of a multi-byte character, stray lead and continuation bytes (implementation alone: the model is about bytes, these are about the scan)
+    bprogs = ["find all 'z'", "find all at least 1 letter", "find all maybe 'a'", "find all any", "find all not 'a'", "find all at least 0 (line start)", "find all word start at least 1 letter word end",
+              "replace all 'b' with 'B'", "find all whole line", "find all (any = x) maybe x", "find all in 'a' to 'z'", "find all whitespace", "find all line end", "find last 1 any", "find all caseless 'CAF'"]
+    ctx.coverage["hostile_byte_runs"] = impl_only_runs(ctx, bprogs, HOSTILE_TAILS + [t[:k] for t in HOSTILE_TAILS[:6] for k in range(len(t))], "C09")
     cases = [{"src": c["src"], "texts": c["texts"]} for c in load_corpus()] + extra
     for i in range(300 if quick else 6000):
         g = genprog.ProgGen(rng)
